@@ -206,6 +206,8 @@ struct ExecState {
     last_failed_cas: Vec<Option<(usize, u64, u64)>>,
     /// consecutive stutter steps taken because nothing else could run
     forced_stutter: usize,
+    /// per thread: the loads (cell, value read, peek) executed since its last operation that was not a load
+    load_log: Vec<Vec<(usize, u64, fn(usize) -> u64)>>,
     calls: Vec<Call>,
     open_call: Vec<Option<usize>>,
     cur_call_name: Vec<Option<String>>,
@@ -227,6 +229,9 @@ pub struct Exec {
 
 struct Aborted;
 
+/// An execution in which no thread reaches a scheduling point for this long is a machinery failure (exit 2).
+const HANG_LIMIT_S: u64 = 15;
+
 impl Exec {
     fn new(n: usize, prefix: Vec<usize>, sleep_after_prefix: Vec<usize>, use_sleep: bool, max_steps: usize) -> Arc<Exec> {
         Arc::new(Exec {
@@ -244,6 +249,7 @@ impl Exec {
                 locks: HashMap::new(),
                 last_failed_cas: vec![None; n],
                 forced_stutter: 0,
+                load_log: vec![vec![]; n],
                 calls: vec![],
                 open_call: vec![None; n],
                 cur_call_name: vec![None; n],
@@ -263,6 +269,21 @@ impl Exec {
             PKind::Sync(OpKind::MutexLock) => st.locks.get(&p.addr).map(|l| l.writer.is_none()).unwrap_or(true),
             PKind::Sync(OpKind::RwRead) => st.locks.get(&p.addr).map(|l| l.writer.is_none()).unwrap_or(true),
             PKind::Sync(OpKind::RwWrite) => st.locks.get(&p.addr).map(|l| l.writer.is_none() && l.readers == 0).unwrap_or(true),
+            // A loop that only loads (`while a.load() + b.load() < n {}`): once the thread has gone round twice reading the
+            // same values, another round is a stutter step until one of the cells it reads changes.
+            PKind::Sync(OpKind::Load) => {
+                let log = &st.load_log[t];
+                for period in 1..=8usize {
+                    if log.len() < 2 * period {
+                        break;
+                    }
+                    let (a, b) = (&log[log.len() - period..], &log[log.len() - 2 * period..log.len() - period]);
+                    if a.iter().zip(b.iter()).all(|(x, y)| x.0 == y.0 && x.1 == y.1) && a[0].0 == p.addr {
+                        return a.iter().any(|(addr, val, peek)| peek(*addr) != *val);
+                    }
+                }
+                true
+            }
             PKind::Sync(OpKind::CmpXchg { .. }) => match st.last_failed_cas[t] {
                 // The same compare-exchange again, right after it really failed, while the cell still holds the value
                 // that made it fail: it would fail identically (a stutter step), so the thread waits for the cell to
@@ -293,7 +314,7 @@ impl Exec {
                 pend[t] = Some(*p);
                 if Self::enabled(st, t, p) {
                     enabled.push(t);
-                } else if matches!(p.kind, PKind::Sync(OpKind::CmpXchg { .. })) {
+                } else if matches!(p.kind, PKind::Sync(OpKind::CmpXchg { .. } | OpKind::Load)) {
                     // waiting oracle: remember what the others were doing while t spins
                     let obs = (t, st.in_call[t].clone().unwrap_or_default(), st.in_call.clone());
                     if st.spin_obs.len() < 64 {
@@ -306,7 +327,7 @@ impl Exec {
             // Nothing can run but a thread waits under the stutter rule: the rule assumes an unbounded retry loop, which
             // a bounded one (try three times, then give up) is not. Let the lowest such thread take its failing step,
             // without branching; a loop that really never ends reaches the step horizon instead.
-            if let Some(t) = (0..n).find(|&t| matches!(pend[t], Some(p) if matches!(p.kind, PKind::Sync(OpKind::CmpXchg { .. })))) {
+            if let Some(t) = (0..n).find(|&t| matches!(pend[t], Some(p) if matches!(p.kind, PKind::Sync(OpKind::CmpXchg { .. } | OpKind::Load)))) {
                 st.forced_stutter += 1;
                 if st.forced_stutter <= 256 {
                     enabled.push(t);
@@ -396,6 +417,9 @@ impl Exec {
             drop(st);
             std::panic::resume_unwind(Box::new(Aborted));
         }
+        if !matches!(p.kind, PKind::Sync(_)) {
+            st.load_log[me].clear();
+        }
         st.status[me] = TStatus::Parked(p);
         st.current = None;
         self.decide(&mut st);
@@ -466,6 +490,16 @@ impl SyncHook for ThreadHook {
             }
         }
         st.last_failed_cas[me] = None;
+        match (op.kind, out) {
+            (OpKind::Load, Outcome::Prev(v)) => {
+                let log = &mut st.load_log[me];
+                log.push((op.addr, *v, op.peek));
+                if log.len() > 64 {
+                    log.drain(..32);
+                }
+            }
+            _ => st.load_log[me].clear(),
+        }
         match op.kind {
             OpKind::CmpXchg { .. } => {
                 if let Outcome::CasFail(actual) = out {
@@ -635,6 +669,7 @@ pub fn run_one<D: Driver + 'static>(
     max_steps: usize,
 ) -> (Execution, Arc<D::Shared>) {
     let n = driver.threads();
+    crate::E1_USED.store(true, MemOrd::Relaxed);
     let exec = Exec::new(n, prefix.to_vec(), sleep_after_prefix.to_vec(), use_sleep, max_steps);
     // setup runs unhooked on the explorer thread; a panic there is reported as a violation by the caller
     let shared = Arc::new(driver.setup());
@@ -672,8 +707,33 @@ pub fn run_one<D: Driver + 'static>(
         pool.txs[t].send(job).unwrap();
     }
     let mut st = exec.st.lock().unwrap();
+    let mut last_seen = (usize::MAX, usize::MAX);
     while st.finished < n {
-        st = exec.done.wait(st).unwrap();
+        let (g, to) = exec.done.wait_timeout(st, std::time::Duration::from_secs(HANG_LIMIT_S)).unwrap();
+        st = g;
+        if to.timed_out() && st.finished < n {
+            let now = (st.steps.len(), st.finished);
+            if now == last_seen {
+                // The scheduler only sees hooked operations. A thread that blocks on (or spins over) something that is
+                // not routed through the hooks never comes back to it: this engine cannot decide anything about such code.
+                let running: Vec<String> = (0..n)
+                    .filter(|&t| matches!(st.status[t], TStatus::Running))
+                    .map(|t| format!("T{} (in {:?})", t, st.in_call[t]))
+                    .collect();
+                eprintln!(
+                    "MACHINERY: driver {}: no scheduling point reached for {} s; running: [{}]. The code under test blocks or loops \
+                     on a primitive that is not routed through the verification hooks (see HOOK-COVERAGE lines, /repo/src/verif.rs).",
+                    driver.name(),
+                    HANG_LIMIT_S,
+                    running.join(", ")
+                );
+                for l in crate::hook_audit() {
+                    eprintln!("HOOK-COVERAGE: {}", l);
+                }
+                std::process::exit(2);
+            }
+            last_seen = now;
+        }
     }
     let mut x = Execution {
         nodes: std::mem::take(&mut st.nodes),
@@ -1092,6 +1152,9 @@ pub fn explore_many<D: Driver + 'static>(
     par: usize,
     rebuild: impl Fn(&D) -> D + Sync + Send,
 ) -> Vec<(String, Mode, ExploreResult)> {
+    // VSCHED_ONLY=<substring of the driver name>: ad-hoc runs of a few drivers
+    let only = std::env::var("VSCHED_ONLY").ok();
+    let drivers: Vec<D> = drivers.into_iter().filter(|d| only.as_ref().map(|f| d.name().contains(f.as_str())).unwrap_or(true)).collect();
     let n = drivers.len();
     let queue = Arc::new(Mutex::new(drivers.into_iter().enumerate().collect::<Vec<_>>()));
     let out: Arc<Mutex<Vec<(usize, String, Mode, ExploreResult)>>> = Arc::new(Mutex::new(Vec::with_capacity(n)));
